@@ -20,6 +20,7 @@ macro_rules! dispatch {
     ($id:expr, $f:ident, $($args:expr),*) => {
         match $id {
             "C03" => pbt::$f::<props::c03::C03>($($args),*),
+            "C04" => pbt::$f::<props::c04::C04>($($args),*),
             "C05" => pbt::$f::<props::c05::C05>($($args),*),
             "C09" => pbt::$f::<props::c09::C09>($($args),*),
             "C14" => pbt::$f::<props::c14::C14>($($args),*),
@@ -35,6 +36,9 @@ macro_rules! dispatch {
 pub fn main() {
     let args: Vec<String> = std::env::args().collect();
     pbt::install_quiet_panic_hook();
+    if std::env::var("RUST_LOG").is_ok() {
+        let _ = env_logger::try_init();
+    }
     let get = |name: &str| -> Option<String> { args.iter().position(|a| a == name).and_then(|i| args.get(i + 1).cloned()) };
     match args.get(1).map(|s| s.as_str()) {
         Some("run") => {
